@@ -371,7 +371,7 @@ func ruleR14d(c *Ctx) {
 	cuts := 0
 	ast.Inspect(fd.Body, func(x ast.Node) bool {
 		if se, ok := x.(*ast.SliceExpr); ok {
-			if fv := fieldOf(se.X, info); fv != nil && fv.Name() == "Name" {
+			if fv := fieldOf(resolveLocalInit(se.X, fd.Body, info), info); fv != nil && fv.Name() == "Name" {
 				cuts++
 			}
 		}
@@ -393,18 +393,82 @@ func ruleR14e(c *Ctx) {
 	}
 	info := p.TypesInfo
 	// range variables over <recv>.registry.SoyFiles
-	live := map[types.Object]bool{}
-	ast.Inspect(fd.Body, func(x ast.Node) bool {
-		rs, ok := x.(*ast.RangeStmt)
-		if !ok || rs.Value == nil {
+	rangeVars := func(body ast.Node) map[types.Object]bool {
+		live := map[types.Object]bool{}
+		ast.Inspect(body, func(x ast.Node) bool {
+			rs, ok := x.(*ast.RangeStmt)
+			if !ok || rs.Value == nil {
+				return true
+			}
+			if fv := fieldOf(rs.X, info); fv != nil && fv.Name() == "SoyFiles" {
+				if inner, ok := ast.Unparen(rs.X).(*ast.SelectorExpr); ok {
+					if rf := fieldOf(inner.X, info); rf != nil && rf.Name() == "registry" {
+						if id, ok := rs.Value.(*ast.Ident); ok && info.Defs[id] != nil {
+							live[info.Defs[id]] = true
+						}
+					}
+				}
+			}
 			return true
+		})
+		return live
+	}
+	live := rangeVars(fd.Body)
+	// ... or the result of a helper that searches that list in this call (every return: nil or the range variable)
+	searches := func(call *ast.CallExpr) bool {
+		cal := calleeFunc(call, info)
+		if cal == nil {
+			return false
 		}
-		if fv := fieldOf(rs.X, info); fv != nil && fv.Name() == "SoyFiles" {
-			if inner, ok := ast.Unparen(rs.X).(*ast.SelectorExpr); ok {
-				if rf := fieldOf(inner.X, info); rf != nil && rf.Name() == "registry" {
-					if id, ok := rs.Value.(*ast.Ident); ok && info.Defs[id] != nil {
+		for _, hd := range c.allFuncDecls("soyjs") {
+			if info.Defs[hd.Name] != cal || hd.Body == nil {
+				continue
+			}
+			hl := rangeVars(hd.Body)
+			good, some := true, false
+			ast.Inspect(hd.Body, func(y ast.Node) bool {
+				if _, ok := y.(*ast.FuncLit); ok {
+					return false
+				}
+				rs, ok := y.(*ast.ReturnStmt)
+				if !ok {
+					return true
+				}
+				if len(rs.Results) == 0 {
+					good = false
+					return true
+				}
+				r := ast.Unparen(rs.Results[0])
+				if id, ok := r.(*ast.Ident); ok {
+					if id.Name == "nil" && info.Uses[id] == types.Universe.Lookup("nil") {
+						return true
+					}
+					if hl[info.Uses[id]] {
+						some = true
+						return true
+					}
+				}
+				good = false
+				return true
+			})
+			return good && some
+		}
+		return false
+	}
+	ast.Inspect(fd.Body, func(x ast.Node) bool {
+		switch s := x.(type) {
+		case *ast.AssignStmt:
+			if len(s.Lhs) >= 1 && len(s.Rhs) == 1 {
+				if call, ok := ast.Unparen(s.Rhs[0]).(*ast.CallExpr); ok && searches(call) {
+					if id, ok := s.Lhs[0].(*ast.Ident); ok && info.Defs[id] != nil {
 						live[info.Defs[id]] = true
 					}
+				}
+			}
+		case *ast.ValueSpec:
+			if len(s.Names) >= 1 && len(s.Values) == 1 {
+				if call, ok := ast.Unparen(s.Values[0]).(*ast.CallExpr); ok && searches(call) {
+					live[info.Defs[s.Names[0]]] = true
 				}
 			}
 		}
